@@ -519,8 +519,8 @@ class C06Engine(GenEngineBase):
 
     def tier_cfg(self, tier):
         if tier == "quick":
-            return {"episodes": 200}
-        return {"episodes": None, "budget_s": 900.0, "min_episodes": 200}
+            return {"episodes": 600}
+        return {"episodes": None, "budget_s": 900.0, "min_episodes": 600}
 
     def make_case(self, seed, tier="quick"):
         kn = stream(seed, "interp")
